@@ -386,6 +386,76 @@ fn ship_te_prb<P: te::TECurveConfig>(out: &mut Out, rng: &mut Rng, n: usize, th:
     for b in prb_strings::<te::Affine<P>>(rng, 1, &pts[1..], th, false) { op_prb::<te::Affine<P>>(out, &cd, &b); }
 }
 
+// ------------------------------------------------------------------ point serialisation into a writer that fails
+//   C09 pwfail CD <aff|proj> <c|u> <e|z> <k> <P> => ok <bytes> | err:<class> <bytes>     serialize_with_mode into a writer that
+//       accepts k bytes in total (partial writes), then fails with an error (e) or with Ok(0) (z); <bytes> = what it received
+struct FailW { buf: Vec<u8>, cap: usize, zero: bool }
+impl std::io::Write for FailW {
+    fn write(&mut self, b: &[u8]) -> std::io::Result<usize> {
+        let room = self.cap - self.buf.len();
+        if room == 0 && !b.is_empty() {
+            return if self.zero { Ok(0) } else { Err(std::io::Error::new(std::io::ErrorKind::Other, "writer full")) };
+        }
+        let n = room.min(b.len());
+        self.buf.extend_from_slice(&b[..n]);
+        Ok(n)
+    }
+    fn flush(&mut self) -> std::io::Result<()> { Ok(()) }
+}
+fn op_pwfail<T: Rep>(out: &mut Out, cd: &str, x: &T, c: Compress, k: usize, zero: bool) {
+    let input = format!("C09 pwfail {} {} {} {} {:x} {}", cd, T::KIND, cs(c), if zero { "z" } else { "e" }, k, x.show());
+    let res = guarded(|| {
+        let mut w = FailW { buf: Vec::new(), cap: k, zero };
+        match x.serialize_with_mode(&mut w, c) { Ok(()) => format!("ok {}", hex_list_u8(&w.buf)), Err(e) => format!("err:{} {}", err_str(&e), hex_list_u8(&w.buf)) }
+    });
+    out.line(&input, &res);
+}
+/// every capacity 0 ..= size + 1 when the encoding is short, a sample around the coordinate boundaries otherwise
+fn pwfail_all<T: Rep>(out: &mut Out, rng: &mut Rng, cd: &str, x: &T, th: bool) {
+    for c in [Compress::Yes, Compress::No] {
+        let n = x.serialized_size(c);
+        let ks: Vec<usize> = if n <= 8 || th { (0..=n + 1).collect() } else {
+            let mut t = vec![0, 1, 7, 8, 9, n / 2 - 1, n / 2, n / 2 + 1, n - 1, n, n + 1];
+            for _ in 0..4 { t.push(rng.below(n as u64) as usize); }
+            t.sort(); t.dedup(); t
+        };
+        for k in ks { op_pwfail(out, cd, x, c, k, rng.below(3) == 0); }
+    }
+}
+fn toy_sw_pwfail<P: sw::SWCurveConfig>(out: &mut Out, rng: &mut Rng, tw: &str, th: bool) {
+    let cd = sw_desc::<P>(&fdesc::<P::BaseField>(tw));
+    let all = sw_all_points::<P>();
+    let mut pts = vec![sw::Affine::<P>::identity()];
+    pts.extend(thin(&all, if th { 1 } else { all.len() / 4 + 1 }, |p| p.y.is_zero()));
+    for p in &pts {
+        pwfail_all(out, rng, &cd, p, th);
+        let q = sw_rescale(&sw::Projective::<P>::from(*p), small_f::<P::BaseField>(2));
+        pwfail_all(out, rng, &cd, &q, th);
+    }
+}
+fn toy_te_pwfail<P: te::TECurveConfig>(out: &mut Out, rng: &mut Rng, th: bool) {
+    let cd = te_desc::<P>(&fdesc::<P::BaseField>("_"));
+    let all = te_all_points::<P>();
+    for p in thin(&all, if th { 1 } else { all.len() / 4 + 1 }, |p| p.x.is_zero()) {
+        pwfail_all(out, rng, &cd, &p, th);
+        let q = te_rescale(&te::Projective::<P>::from(p), small_f::<P::BaseField>(2));
+        pwfail_all(out, rng, &cd, &q, th);
+    }
+}
+fn ship_sw_pwfail<P: sw::SWCurveConfig>(out: &mut Out, rng: &mut Rng, tw: &str, th: bool) {
+    let cd = sw_desc::<P>(&fdesc::<P::BaseField>(tw));
+    let g = P::GENERATOR;
+    pwfail_all(out, rng, &cd, &g, th);
+    pwfail_all(out, rng, &cd, &sw::Affine::<P>::identity(), false);
+    pwfail_all(out, rng, &cd, &sw::Projective::<P>::from(-g), false);
+}
+fn ship_te_pwfail<P: te::TECurveConfig>(out: &mut Out, rng: &mut Rng, th: bool) {
+    let cd = te_desc::<P>(&fdesc::<P::BaseField>("_"));
+    let g = P::GENERATOR;
+    pwfail_all(out, rng, &cd, &g, th);
+    pwfail_all(out, rng, &cd, &te::Projective::<P>::from(-g), false);
+}
+
 fn main() {
     let a = arkharness::args();
     let th = a.thorough;
@@ -532,6 +602,18 @@ fn main() {
         ship_sw_prb::<secp256k1::Config>(&mut out, &mut rng, if th { 12 } else { 3 }, "_", th);
         ship_te_prb::<ed_on_bls12_381::EdwardsConfig>(&mut out, &mut rng, if th { 12 } else { 3 }, th);
         ship_sw_prb::<mnt4_753::g1::Config>(&mut out, &mut rng, 1, "_", false);
+    }
+    if want("pwfail") {
+        toy_sw_pwfail::<SW13B>(&mut out, &mut rng, "_", th);
+        toy_sw_pwfail::<SW13E>(&mut out, &mut rng, "_", th);
+        toy_sw_pwfail::<SW257A>(&mut out, &mut rng, "_", th);
+        toy_sw_pwfail::<SW49B>(&mut out, &mut rng, "2:6", th);
+        toy_te_pwfail::<TE13A>(&mut out, &mut rng, th);
+        toy_te_pwfail::<TE257A>(&mut out, &mut rng, th);
+        ship_sw_pwfail::<bls12_381::g1::Config>(&mut out, &mut rng, "_", th);
+        ship_sw_pwfail::<bls12_381::g2::Config>(&mut out, &mut rng, &g2_tower(), th);
+        ship_sw_pwfail::<secp256k1::Config>(&mut out, &mut rng, "_", th);
+        ship_te_pwfail::<ed_on_bls12_381::EdwardsConfig>(&mut out, &mut rng, th);
     }
     out.flush();
     eprintln!("c09: {} lines", out.count);
